@@ -92,3 +92,47 @@ package db19
 //@   ensures! valid_and_earlier: r != nil ==> r.Asof != 0 && r.Off != 0 && r.Asof == rsT(store, r.Off) && (off0 != 0 ==> r.Off < off0)
 //@   loop 0 invariant off0 != 0 ==> off <= off0
 //@   loop 0 decreases off
+
+//@ property C05
+// ---- repair: which state is picked ------------------------------------------------------------------
+// scanOff(k): the k-th state marker found scanning backwards from the end of the store (k = 0 is the
+// most recent); goodAt(off): the state at off passes the full check. Both are functions of the store
+// content (the scanner goroutine only produces the offsets incrementally).
+//@ spec scanOff(k int) uint64
+//@ spec goodAt(off uint64) bool
+//@ func newScanner(store) (r)
+//@   assumed
+//@   ensures r != nil && fresh(r)
+// the scanner only ever appends: the number of offsets handed out so far (ghost) never shrinks
+//@ ghost var gScanLen int
+//@ func (s *scanner) getUpTo(i) (offsets, done)
+//@   assumed
+//@   modifies gScanLen
+//@   ensures len(offsets) == gScanLen && gScanLen >= old(gScanLen)
+//@   ensures !done ==> i < len(offsets)
+//@   ensures done ==> len(offsets) <= i
+//@   ensures forall k :: 0 <= k && k < len(offsets) ==> offsets[k] == scanOff(k)
+//@ func (s *scanner) stop()
+//@   assumed
+//@   pure
+//@ func (s *scanner) close()
+//@   assumed
+//@   pure
+//@ func (r *repair) check(i, off) (state)
+//@   assumed
+//@   modifies r.ec
+//@   ensures (state != nil) <==> goodAt(off)
+
+// search never indexes outside the offsets found (also when there are none), reports "nothing found"
+// as (0, 0, nil), and otherwise returns a good state whose more recent neighbour was checked and is bad
+//@ func (r *repair) search() (idx, off, state)
+//@   requires r != nil && gScanLen >= 0
+//@   modifies r.ec, gScanLen
+//@   ensures! none: state == nil ==> idx == 0 && off == 0
+//@   ensures! picked_good: state != nil ==> 0 <= idx && off == scanOff(idx) && goodAt(off)
+//@   ensures! newer_is_bad: state != nil && idx > 0 ==> !goodAt(scanOff(idx - 1))
+//@   loop 0 invariant 0 <= prev && prev <= i && skip == i + 1 && i < 70368744177664 && !last && (prev < i ==> !goodAt(scanOff(prev)) && prev < gScanLen) && (prev == i ==> i == 0) && gScanLen >= 0
+//@   loop 0 invariant frame()
+//@   loop 1 invariant frame()
+//@   loop 1 invariant 0 <= lo && (lo == hi ==> hi == 0) && lo <= hi && hi < len(offsets) && state != nil && goodAt(scanOff(hi)) && (lo < hi ==> !goodAt(scanOff(lo))) && (forall k :: 0 <= k && k < len(offsets) ==> offsets[k] == scanOff(k))
+//@   loop 1 decreases hi - lo
